@@ -230,8 +230,13 @@ func C09(c *Ctx) {
 		Cases: func(gi int, g *gast.Grammar) []*mon.Case {
 			ins := c.inputsFor(g, rng, c.N(50, 120), c.N(250, 1500), false)
 			var cs []*mon.Case
+			alpha := g.Alphabet()
 			for ii, in := range ins {
 				cs = append(cs, &mon.Case{Input: in, MaxExpr: 400000, MaxEvents: 600})
+				if ii%6 == 2 && len(in) > 0 {
+					bad := gast.Mutate(rng, in, alpha, true)
+					cs = append(cs, &mon.Case{Input: bad, MaxExpr: 400000, MaxEvents: 600}, &mon.Case{Input: bad, AllowInvalid: true, MaxExpr: 400000, MaxEvents: 600})
+				}
 				for ei, e := range entries[gi] {
 					if (ii+ei)%3 == 0 {
 						cs = append(cs, &mon.Case{Input: in, Entry: e, MaxExpr: 400000, MaxEvents: 600})
@@ -298,6 +303,8 @@ func c09Strata() []*gast.Grammar {
 		mk(r("S", gast.Star(gast.C(gast.Cl(&gast.ClassSpec{Ranges: [][2]rune{{'0', '9'}}, Inverted: true}), gast.L("5"), inv("xyz"), gast.L("y"))))),
 		// a caseless one-rune literal next to a literal / class with the other i flag
 		mk(r("S", gast.Plus(gast.C(gast.L("_"), gast.Li("x"), gast.Cl(&gast.ClassSpec{Ranges: [][2]rune{{'0', '9'}}})))), r("T", gast.Plus(gast.C(gast.Li("1"), gast.L("a"), gast.Li("-"), gast.Cl(gast.Chars("k")))))),
+		// one-byte literals that are not valid UTF-8 (they stand for U+FFFD) side by side
+		mk(r("S", gast.Star(gast.C(gast.L("\xff"), gast.L("\xfe"), gast.L("a"), gast.Cl(gast.Chars("bÿ")))))),
 		// non-ASCII one-rune literals merged into classes
 		mk(r("S", gast.Plus(gast.C(gast.L("«"), gast.L("»"), gast.L("–"), gast.Cl(gast.Chars("ab")), gast.L("é"), gast.L("Â"))))),
 		// one-rune literals that mean something inside a class, side by side in a choice
